@@ -148,6 +148,17 @@ def keyword_line_cases():
         out.append((stages.URIS[0], 'act', '', 'CROSSHEADING %s\n' % t))
     return out
 
+def attr_name_cases():
+    """attribute names that ARE XML names although they do not look like the usual ones: letters of other scripts, underscore, dots and
+    dashes inside - on the constructs that take attribute lists"""
+    out = []
+    for nm in ('t\u00edtulo', 'gr\u00f6\u00dfe', '\u5e45', '\u00e9tiquette', '_x', 'a.b', 'a-b', 'A1', '\u03b1\u03b2', 'data-x'):
+        for shape in ('P{%s centrado} Some text.\n', 'TABLE\n  TR\n    TC{colspan 2|%s 3}\n      cell\n', 'SEC{%s 12} 1. - Heading\n  Text with {{inline{name x|%s y} an inline}}.\n',
+                      'QUOTE{%s v}\n  q\n', 'x {{abbr{%s v} a}}\n'):
+            for root in gen.ROOTS6[:3]:
+                out.append((stages.URIS[0], root, '', shape.replace('%s', nm)))
+    return out
+
 def correspondence(ctx):
     pl = plain_line_cases(ctx, ctx.n(40, 2000))
     for uri, root, prefix, text in pl:
@@ -157,7 +168,7 @@ def correspondence(ctx):
         if r != want and not text.startswith(('P ', 'P.', 'P{')):
             ctx.failures.append(({'stage': 'e2e', 'uri': uri, 'root': root, 'prefix': prefix, 'text': text, 'exception': None},
                                  'a plain line did not become the one paragraph C01_plain_line_converts predicts: %r' % (r,)))
-    cs = cases(ctx, ctx.n(800, 60000)) + [(stages.URIS[0], r, '', t) for r, t in WITNESSES] + pl + internal_attr_cases(ctx, ctx.n(150, 5000)) + href_cases(ctx, 0) + keyword_line_cases()
+    cs = cases(ctx, ctx.n(800, 60000)) + [(stages.URIS[0], r, '', t) for r, t in WITNESSES] + pl + internal_attr_cases(ctx, ctx.n(150, 5000)) + href_cases(ctx, 0) + keyword_line_cases() + attr_name_cases()
     ctx._docs = cs
     stages.stage_e2e(ctx, cs)
 
@@ -184,7 +195,15 @@ def _has_illegal_attr_name(case):
     try:
         d = impl.parser().parse(case['text'], case['root']).to_dict()
     except Exception:
-        return True
+        # the dict stage itself refuses: read the names off the text - an attribute list directly follows a keyword, a class or an inline name
+        import re
+        for lst in re.findall(r'(?<=[A-Za-z0-9.\-_+])\{([^{}\n]*)\}', case['text']):
+            for part in lst.split('|'):
+                name = part.strip().split(' ')[0]
+                if not name: continue
+                try: etree.Element('x').set(name, 'v')
+                except ValueError: return True
+        return False
     def walk(n):
         for k in list(n.get('attribs') or {}) + list(n.get('att_attribs') or {}):
             try: etree.Element('x').set(k, 'v')
